@@ -19,6 +19,18 @@ def row_maps(rows, endrows):
     return inv
 
 
+def char_codes(s):
+    """the printed text as the character codes the spec uses: a character below 256 is ONE code (the interpreter
+    writes it to its byte stream in UTF-8, which is an encoding matter, not a difference in what was printed)"""
+    if isinstance(s, dict):
+        return codes(s)
+    out = []
+    for ch in s:
+        o = ord(ch)
+        out += [o] if o < 256 else list(ch.encode("utf-8"))
+    return out
+
+
 def obs_of(resp, rowinv):
     """harness response -> observables in the vocabulary of the spec"""
     if resp is None:
@@ -38,7 +50,7 @@ def obs_of(resp, rowinv):
         pos = err.get("pos") or [0, 0]
         return {"status": "reject", "out": [], "code": code, "estmt": rowinv.get(pos[0], -1), "stack": [],
                 "stage": st, "error": err}
-    out = codes(resp.get("stdout", ""))
+    out = char_codes(resp.get("stdout", ""))
     oc = resp.get("outcome", {})
     if oc.get("k") == "ok":
         return {"status": "ok", "out": out, "code": 0, "estmt": 0, "stack": []}
